@@ -17,8 +17,8 @@ RULE = ('program = up to 10 primitives (left/right/forward/back/up/down/move_dis
         'under >= 3 schedules. Altitude stays above the landing height. distinct_nontrivial = distinct (program hash, '
         'exception position, form, observed call-sequence hash).')
 ASSUMPTIONS = ['virtual time: library processing takes zero time, so setpoint instants and integrals are exact (1e-9)',
-               'programs keep the commanded altitude above the landing height (physical flights); altitude exactly 0 at '
-               'land() is excluded (division by zero in down(0) needs measure-zero timing on a real clock)']
+               'programs keep the commanded altitude at or above the landing height (physical flights); for the MotionCommander '
+               'an altitude of exactly 0 at land() is excluded (division by zero in down(0) needs measure-zero timing on a real clock)']
 REQUIRED = ['mon.mc_programs', 'mon.mc_exceptions_in_body', 'mon.mc_hover_setpoints', 'mon.mc_primitives_checked',
             'mon.hl_programs', 'mon.hl_goto_checked', 'mon.hl_exceptions_in_body', 'mon.quiet_after_landing']
 DESC_TIMEOUT = 900
@@ -345,10 +345,15 @@ def run_hl(desc, ctx):
             v = rnd.choice((None, None, 0.3, rnd.uniform(0.1, 2)))
             d = rnd.choice((0.5, 1.0, rnd.uniform(0.01, 3)))
             if k == 'down':
-                d = min(d, z - lh - 0.05)
+                if rnd.random() < 0.25 and z - lh > 0.01:
+                    d = z - lh           # down to exactly the landing height (touch down before leaving the context)
+                else:
+                    d = min(d, z - lh - 0.05)
                 if d <= 0.01:
                     continue
                 z -= d
+                if z < lh:
+                    z = lh
             if k == 'up':
                 z += d
             if k == 'move':
@@ -356,7 +361,7 @@ def run_hl(desc, ctx):
                 z += dz
                 prog.append((k, (rnd.uniform(-1, 1), rnd.uniform(-1, 1), dz), v))
             elif k == 'go_to':
-                tz = rnd.uniform(lh + 0.1, 2.0)
+                tz = rnd.choice((lh, rnd.uniform(lh + 0.1, 2.0), rnd.uniform(lh + 0.1, 2.0)))
                 z = tz
                 prog.append((k, (rnd.uniform(-2, 2), rnd.uniform(-2, 2), tz), v))
             elif k == 'go_to_xy':
@@ -371,6 +376,9 @@ def run_hl(desc, ctx):
                 prog.append((k, gh))
             else:
                 prog.append((k, d, v))
+        if rnd.random() < 0.25 and z - lh > 0.01:
+            # touch down before leaving the context: the last motion ends exactly on the landing height
+            prog.append(('down', z - lh, None) if rnd.random() < 0.5 else ('go_to', (rnd.uniform(-1, 1), rnd.uniform(-1, 1), lh), None))
         boom_at = rnd.choice((None, None, rnd.randint(0, len(prog))))
         cf = StubCf()
         ob = {'exp': [], 'pos': None, 'escaped': None}
